@@ -29,7 +29,7 @@ def build(variant='plain'):
 
 TOOLS = {'e2fsck': 'e2fsck/e2fsck', 'mke2fs': 'misc/mke2fs', 'debugfs': 'debugfs/debugfs', 'tune2fs': 'misc/tune2fs',
          'dumpe2fs': 'misc/dumpe2fs', 'resize2fs': 'resize/resize2fs', 'e2image': 'misc/e2image', 'e2undo': 'misc/e2undo',
-         'e2freefrag': 'misc/e2freefrag', 'e2label': 'misc/e2label', 'chattr': 'misc/chattr', 'lsattr': 'misc/lsattr'}
+         'e2freefrag': 'misc/e2freefrag', 'chattr': 'misc/chattr', 'lsattr': 'misc/lsattr'}
 def tool(name, variant='plain'):
     return os.path.join(build(variant), TOOLS[name])
 
@@ -94,6 +94,19 @@ def load_known(prop):
     d = json.load(open(p))
     return [f for f in d.get('findings', []) if f.get('property') == prop]
 
+def load_known_cases(prop):
+    """known_findings/<prop>.cases.json: {finding id: {what, example, cases: [exact case ids]}} -> {case id: finding id}, {finding id: what}"""
+    p = os.path.join(VERIF, 'known_findings', prop + '.cases.json')
+    if not os.path.exists(p):
+        return {}, {}
+    d = json.load(open(p))
+    m = {}; what = {}
+    for fid, f in d.items():
+        what[fid] = f.get('what', '')
+        for c in f.get('cases', []):
+            m[c] = fid
+    return m, what
+
 class Check:
     """Collects results of one check run and writes evidence + replay files."""
     def __init__(self, prop, tier, level):
@@ -105,6 +118,7 @@ class Check:
         self.violations = []      # (case_id, detail dict)
         self.known_hit = {}
         self.known = load_known(prop)
+        self.known_cases, self.known_cases_what = load_known_cases(prop)
         self.parts = {}
         self.deadline = None
         self.replay_dir = os.path.join(VERIF, 'replays', prop)
@@ -133,6 +147,9 @@ class Check:
         self.cov['parts'] = self.parts
 
     def match_known(self, case_id, detail=None):
+        if case_id in self.known_cases:
+            fid = self.known_cases[case_id]
+            return {'id': fid, 'what': self.known_cases_what.get(fid, '')}
         for f in self.known:
             if 'case' in f and f['case'] == case_id:
                 return f
@@ -158,6 +175,11 @@ class Check:
         for k, (f, n) in sorted(self.known_hit.items()):
             print('KNOWN-FINDING: property=%s %s (%d case(s) this run; %s)' % (self.prop, k, n, f.get('what', '')))
         nviol = len(self.violations)
+        if nviol and os.environ.get('VERIF_DUMP_ALL'):
+            os.makedirs(self.replay_dir, exist_ok=True)
+            with open(os.path.join(self.replay_dir, 'all.jsonl'), 'w') as f:
+                for cid, det in self.violations:
+                    f.write(json.dumps({'case': cid, 'detail': det}, default=str) + '\n')
         if nviol:
             os.makedirs(self.replay_dir, exist_ok=True)
             for i, (cid, det) in enumerate(self.violations[:50]):
